@@ -201,7 +201,7 @@ distinct = distinct (size value, pair class) + type codes + layout headers; orac
     let mut rng = Rng::derive(ctx.seed, 10, 0);
 
     // ---- layout: distinct field values at their offsets -------------------------------------
-    let n_layout = ctx.tier.pick(20_000, 6_000_000);
+    let n_layout = ctx.tier.pick(20_000, 2_000_000);
     for i in 0..n_layout {
         if i % 16 == 1 {
             crate::props::poison::run(i as u64);
@@ -357,7 +357,7 @@ distinct = distinct (size value, pair class) + type codes + layout headers; orac
         }
     }
     // sampled 2^32 count/number space on the variable-length and boundary sizes
-    let n_rand = ctx.tier.pick(200_000, 40_000_000);
+    let n_rand = ctx.tier.pick(200_000, 12_000_000);
     for i in 0..n_rand {
         if i % 16 == 1 {
             crate::props::poison::run(i as u64);
